@@ -1,0 +1,58 @@
+// Copyright (c) 2026 10X Genomics, Inc. All rights reserved.
+
+//go:build verif
+
+package core
+
+// Detection of VDR bookkeeping maps that are shared between forks of a node
+// (every fork prunes its own fileArgs / filePostNodes), for the external
+// verification harness.  Only compiled with `-tags verif`.
+
+import (
+	"fmt"
+	"reflect"
+)
+
+// VerifForksShareTables reports every pair of forks of one node whose
+// fileArgs or filePostNodes tables (the outer maps or the per-argument /
+// per-node inner maps) are the same Go map.
+func (self *Pipestance) VerifForksShareTables() []string {
+	var out []string
+	ptr := func(m interface{}) uintptr {
+		v := reflect.ValueOf(m)
+		if v.Kind() != reflect.Map || v.IsNil() {
+			return 0
+		}
+		return v.Pointer()
+	}
+	for _, n := range self.allNodes() {
+		seen := map[uintptr]string{}
+		note := func(p uintptr, what string, f *Fork) {
+			if p == 0 {
+				return
+			}
+			if prev, ok := seen[p]; ok && prev != f.fqname {
+				out = append(out, fmt.Sprintf("%s: %s of %s is the map of %s", n.GetFQName(), what, f.fqname, prev))
+			} else {
+				seen[p] = f.fqname
+			}
+		}
+		for _, f := range n.forks {
+			f.storageLock.Lock()
+			note(ptr(f.fileArgs), "fileArgs", f)
+			for a, m := range f.fileArgs {
+				note(ptr(m), "fileArgs["+a+"]", f)
+			}
+			note(ptr(f.filePostNodes), "filePostNodes", f)
+			for pn, m := range f.filePostNodes {
+				name := ""
+				if !verifNilNodable(pn) {
+					name = pn.GetFQName()
+				}
+				note(ptr(m), "filePostNodes["+name+"]", f)
+			}
+			f.storageLock.Unlock()
+		}
+	}
+	return out
+}
